@@ -71,6 +71,9 @@ func (s *StreamRecipe) Build() *Built {
 		ds := sim.Pick(r, []int64{4096, 4096, 8192, 1 << 16, 1 << 20})
 		cs := refenc.Realise(r, kinds, refenc.SeqOptions{MaxOpsPerChunk: r.Range(1, 80), MaxRaw: r.Range(1, 300), DictSize: ds, BigChunk: s.Big})
 		return &Built{Stream: cs.Stream, Content: cs.Content, Format: "lzma2", Dict: ds}
+	case "refenc-far-xz", "refenc-far-alone", "refenc-far-l2":
+		f := refenc.GenFar(sim.NewRng(s.Seed), map[string]string{"refenc-far-xz": "xz", "refenc-far-alone": "lzma", "refenc-far-l2": "lzma2"}[s.Kind])
+		return &Built{Stream: f.Stream, Content: f.Content, Format: f.Format, Dict: f.Dict}
 	case "lib":
 		x := sim.NewCtx(false)
 		res := runWriter(s.W, x)
